@@ -307,6 +307,19 @@ def _work_cases(job):
             continue
         tot.merge(c.stats)
         out["n"] += 1
+        # differential validation of the symbolic run: the same harness on plain floats through
+        # the unmodified public API (no stubs) must satisfy every obligation as well
+        if not c.violations and job.get("validate", True):
+            try:
+                env = Env(model={})
+                harness(env, case)
+                out["validated"] = out.get("validated", 0) + 1
+                if env.failed:
+                    out["errors"].append(f"symbolic run holds but the plain-float run of {case} violates {env.failed[:2]} (stub/encoding mismatch)")
+            except symx.PathEnd:
+                pass
+            except Exception as e:  # noqa
+                out["errors"].append(f"plain-float run of {case} raises {type(e).__name__}: {e}")
         if len(out["samples"]) < 2:
             out["samples"].append({"case": case, "paths": c.stats.paths, "obligations": c.stats.obligations})
         seen = set()
@@ -341,4 +354,5 @@ def run_cases(rep, module, harness, cases, nchunks=64, timeout_ms=20000, max_pat
         for s in r["samples"]:
             rep.add_sample(s)
         rep.cases += r["n"]
+        rep.replayed += r.get("validated", 0)
     return results
